@@ -35,12 +35,13 @@ def mk_contract_seq(I, base="contracts"):
 def mk_box_space(I):
     cs = mk_contract_seq(I)
     n = I.heap[cs.oid]["len"]
-    low, high = I.fl("low"), I.fl("high")
-    I.assume(low.v <= high.v)
+    # per-contract bounds (gymnasium's Box broadcasts scalar bounds to arrays; array bounds are allowed): low[i] <= high[i]
+    lowf, highf = I.func("low", IntS, RealS), I.func("high", IntS, RealS)
+    I.assume_pwi(lambda i: lowf(i) <= highf(i))
     return I.new_rec("BoxPortfolio", contracts=cs, _as_weights=[True, False][I.choice(2)], _fractional=True,
                      _margin=I.fl("space_margin"), base_currency=KeyV(I.key("cash")),
-                     low=sym_seq(I, lambda i: low, n, "ndarray"), high=sym_seq(I, lambda i: high, n, "ndarray"),
-                     shape=(In(n),), dtype=Opaque("float64"), _low=low, _high=high)
+                     low=sym_seq(I, lambda i: Fl(lowf(i)), n, "ndarray"), high=sym_seq(I, lambda i: Fl(highf(i)), n, "ndarray"),
+                     shape=(In(n),), dtype=Opaque("float64"), _low=lowf, _high=highf)
 
 
 def mk_discrete_space(I):
@@ -62,7 +63,7 @@ def box_member(I, sp, x):
     n = h[f["contracts"].oid]["len"]
     px = h[x.oid]
     lo, hi = f["_low"], f["_high"]
-    inside = lambda i: z3.And(z3.Not(px["at"](i).nan), lo.v <= px["at"](i).v, px["at"](i).v <= hi.v)
+    inside = lambda i: z3.And(z3.Not(px["at"](i).nan), lo(i) <= px["at"](i).v, px["at"](i).v <= hi(i))
     return z3.And(px["len"] == n, forall_index(I, "in_box#%d" % x.oid, z3.IntVal(0), n, inside))
 
 
@@ -204,7 +205,8 @@ class NullAction(Contract):
     def requires(self, c):
         if c.self.cls == "BoxPortfolio":
             f = c.I.heap[c.self.oid]
-            return [Cl("zero_within_bounds", z3.And(f["_low"].v <= 0, 0 <= f["_high"].v))]
+            n = c.I.heap[f["contracts"].oid]["len"]
+            return [PWI("zero_within_bounds", lambda i: z3.Implies(z3.And(0 <= i, i < n), z3.And(f["_low"](i) <= 0, 0 <= f["_high"](i))))]
         return []
 
     def result(self, c):
